@@ -26,6 +26,7 @@ theorem inv_watcherRun (s : St) (h : Inv s) : Inv (watcherRun s) := by
 theorem inv_step (s : St) (op : Op) (h : Inv s) : Inv (step s op) := by
   cases op with
   | set b => obtain ⟨h1, h2, h3, h4, h5⟩ := h; constructor <;> first | exact h4 | simp_all [step]
+  | poke => obtain ⟨h1, h2, h3, h4, h5⟩ := h; constructor <;> first | exact h4 | simp_all [step]
   | data => exact h
   | close => obtain ⟨h1, h2, h3, h4, h5⟩ := h; constructor <;> first | exact h4 | simp_all [step]
   | settle => exact inv_watcherRun _ (inv_workerIter _ h)
@@ -71,6 +72,7 @@ theorem spawned_step (s : St) (op : Op) :
   obtain ⟨en, d, c, a, e, n, k⟩ := s
   cases op with
   | set b => cases b <;> cases en <;> cases c <;> simp [step, pend]
+  | poke => simp [step, pend]
   | data => simp [step]
   | close => simp [step, pend]
   | settle =>
@@ -138,6 +140,7 @@ theorem rel_step (s : St) (e : Edge) (op : Op) (h : Rel s e) : Rel (step s op) (
   subst h1 h2 h4
   cases op with
   | set b => constructor <;> simp_all [step, edgeStep]
+  | poke => constructor <;> simp_all [step, edgeStep]
   | data => constructor <;> simp_all [step, edgeStep]
   | close => constructor <;> simp_all [step, edgeStep]
   | settle =>
@@ -158,6 +161,9 @@ theorem delivered_le_edges (ops : List Op) : (run init ops).delivered ≤ edges 
   rw [spawned_eq_edges] at this; exact this
 
 example : edges [.set true, .settle, .set true, .settle, .set false, .set true, .settle] = 1 := by decide
+/-- a change of another configuration value while the source stays enabled neither ends the watch task nor starts a second one -/
+example : (run init [.set true, .settle, .poke, .settle, .close, .settle]).delivered = 1 ∧
+    (run init [.set true, .settle, .poke, .settle, .poke, .settle, .close, .settle]).spawned = 1 := by decide
 
 /-! ### exactly once in the plain use: enabled once, then end of input -/
 
@@ -167,7 +173,7 @@ def watching (n k : Nat) : St := { enabled := true, dirty := false, closeS := tr
 theorem enable_watches : run init [.set true, .settle] = watching 0 1 := by decide
 
 def quietOp : Op → Bool | .data => true | .settle => true | _ => false
-def noSet : Op → Bool | .set _ => false | _ => true
+def noSet : Op → Bool | .set _ => false | .poke => false | _ => true
 
 theorem watching_quiet (n k : Nat) (ds : List Op) (h : ∀ op ∈ ds, quietOp op = true) : run (watching n k) ds = watching n k := by
   induction ds with
@@ -177,6 +183,7 @@ theorem watching_quiet (n k : Nat) (ds : List Op) (h : ∀ op ∈ ds, quietOp op
     have : step (watching n k) op = watching n k := by
       cases op with
       | set b => simp [quietOp] at ho
+      | poke => simp [quietOp] at ho
       | close => simp [quietOp] at ho
       | data => rfl
       | settle => simp [step, settle, workerIter, watcherRun, watching]
@@ -195,6 +202,7 @@ theorem ended_stays (s : St) (rest : List Op) (hd : s.dirty = false) (ha : s.ali
     simp only [run, List.foldl]
     cases op with
     | set b => simp [noSet] at ho
+    | poke => simp [noSet] at ho
     | data => exact ih _ rfl rfl (fun op hop => h op (by simp [hop]))
     | close => exact ih _ rfl rfl (fun op hop => h op (by simp [hop]))
     | settle =>
